@@ -923,7 +923,7 @@ class BareTarget:
         return list(self.out), exc
 
     def canon(self):
-        return (self.asm.current_data, self.asm.l2cap_pdu_length)
+        return (_frozen(self.asm.current_data), self.asm.l2cap_pdu_length)
 
     def expect(self, frames):
         return frames
@@ -975,10 +975,15 @@ class HostTarget:
         return [(which, cid, pl) for (hd, cid, pl) in self.out for which in self.h if self.h[which] == hd], exc
 
     def canon(self):
-        return tuple((self.host.connections[v].assembler.current_data, self.host.connections[v].assembler.l2cap_pdu_length) for v in self.h.values())
+        return tuple((_frozen(self.host.connections[v].assembler.current_data), self.host.connections[v].assembler.l2cap_pdu_length) for v in self.h.values())
 
     def close(self):
         self.w.__exit__(None, None, None)
+
+
+def _frozen(x):
+    """Hashable copy of an assembler buffer whatever mutable type the implementation uses."""
+    return bytes(x) if isinstance(x, (bytearray, memoryview)) else x
 
 
 def split_frame(f):
